@@ -433,7 +433,7 @@ func init() {
 		Shards: shards(14, 16),
 		Meta: func(tier string) rt.Meta {
 			return rt.Meta{Level: "exploration", MinEvals: 20000, MinDistinct: 200,
-				Rule:        "(a) reflection-driven adversarial sweep: the method sets of MemFS, OrefaFS, RoFS and BasePathFS over both, FailFS, a Sub view, MemIdm and of their File handles (regular read/write/append, directory, closed, nil typed handle returned together with an error) are walked with reflect and every parameter is filled from a hostile domain chosen by its Go type (paths: empty, ., .., /, //, unclean, NUL and backslash, 300-byte names, 400-byte paths, glob metacharacters; integers: MinInt64, -1, 0, boundaries up to 1 MiB; open flags; file modes incl. type bits; buffers; times; callbacks), after random preceding calls; plus the exported helpers (Glob, WalkDir, CopyFile, HashFile, PathIterator, FromUnixPath, To/FromBasePath, RndTree...). Each call runs under recover() and under the sequential lock hook, which turns a lock that can never be acquired into a logical 'never returns' verdict and counts lock sites for runaway detection. (b) deadlock/panic verdicts of the deterministic scheduler over the C06 programs plus dedicated lock-order programs (opposite cross-directory renames, rename against mkdir/remove/open in the involved directories, link against remove, handle operations against path operations on the same node). Signature = type.method | verdict; all non-trivial.",
+				Rule:        "(a) reflection-driven adversarial sweep: the method sets of MemFS, OrefaFS, RoFS and BasePathFS over both, FailFS, a Sub view, MemIdm and of their File handles (regular read/write/append, directory, closed, nil typed handle returned together with an error) are walked with reflect and every parameter is filled from a hostile domain chosen by its Go type (paths: empty, ., .., /, //, unclean, NUL and backslash, 300-byte names, 400-byte paths, glob metacharacters; integers: MinInt64, -1, 0, boundaries up to 1 MiB; open flags; file modes incl. type bits; buffers; times; callbacks), after random preceding calls; plus the exported helpers (Glob, WalkDir, CopyFile, HashFile, PathIterator, FromUnixPath, To/FromBasePath, RndTree...). Each call runs under recover() and under the sequential lock hook, which turns a lock that can never be acquired into a logical 'never returns' verdict and counts lock sites for runaway detection. (a') permission-failure scenarios: a tree built by a non-administrator on MemFS, non-empty directories then protected by the administrator, RemoveAll/MkdirAll/Rename/Remove by the owner failing half-way; the call and Stat/ReadDir/Lstat of every directory afterwards must return (a lock kept on an error path is a logical self-deadlock). (b) deadlock/panic verdicts of the deterministic scheduler over the C06 programs plus dedicated lock-order programs (opposite cross-directory renames, rename against mkdir/remove/open in the involved directories, link against remove, handle operations against path operations on the same node). Signature = type.method | verdict; all non-trivial.",
 				Assumptions: []string{"sizes and offsets beyond 1 MiB (allocation bombs on an in-memory file system) and a nil UserReader are outside the domain", "pure-CPU non-termination without lock acquisitions would only be caught by the worker watchdog (inconclusive)"}}
 		},
 		CrashIsViolation: true,
@@ -493,6 +493,14 @@ func init() {
 				c.Rep.Notes = append(c.Rep.Notes, fmt.Sprintf("methods skipped (a parameter type has no hostile domain): %v", sk))
 			}
 			c.Rep.Sample(map[string]any{"kind": "sweep", "targets": "MemFS, OrefaFS, RoFS(x), BasePathFS(x), FailFS, MemFS.Sub, MemIdm and their File handles", "path_domain": c07Paths[:12]}, 1)
+
+			// ---- (a') composite calls failing half-way on permissions, issued by a non-administrator: they and every
+			// later call on the same directories must return (a lock kept on an error path shows up here)
+			for h := 0; h < c.Pick(2000, 40000); h++ {
+				if h%c.NShards == c.Shard {
+					c05Partial(c, h, true)
+				}
+			}
 
 			// ---- (b) schedules: every worker returns
 			sched.Install()
